@@ -502,3 +502,6 @@ MANIFEST_ENTRY = dict(
          'definitions are enumerated, not symbolic; rectangles <= 2.5 tile spans; same-SRS paths only (pyproj is FFI); trusted: z3, '
          'the proxy semantics of engine/symex.py.',
 )
+
+# --- manifest text refreshed after rounds 6-8 (obligations added since the entry above was written)
+MANIFEST_ENTRY['text'] = MANIFEST_ENTRY['text'] + ' The level-choice reference uses the stretch / shrink factors written in the grid configuration, not the attributes of the built grid.'
